@@ -11,6 +11,8 @@ import (
 	"encoding/json"
 	"fmt"
 	"os"
+	"path/filepath"
+	"strings"
 	"time"
 
 	"verif/simrt"
@@ -23,6 +25,7 @@ type HOp struct {
 	Opts string   `json:"opts,omitempty"`
 	Q    DrvQuery `json:"q,omitempty"`
 	N    int      `json:"n,omitempty"` // maxopen/maxidle: count; idletime/sleep: seconds
+	Sp   int      `json:"sp,omitempty"` // open: spelling of the file's path in the DSN (0 clean, 1 dir/./f, 2 dir//f, 3 dir/x/../f)
 }
 
 type HPhase struct {
@@ -218,7 +221,11 @@ func genC17(c *Ctx) any {
 				f := r.Intn(nf)
 				opts := handleOpts[r.Intn(len(handleOpts))]
 				hs = append(hs, hstate{open: true, file: f})
-				ops = append(ops, HOp{Kind: "open", H: len(hs) - 1, File: f, Opts: opts})
+				sp := 0
+				if r.Chance(1, 4) {
+					sp = r.Range(1, 3) // another spelling of the same path
+				}
+				ops = append(ops, HOp{Kind: "open", H: len(hs) - 1, File: f, Opts: opts, Sp: sp})
 				if r.Chance(2, 3) {
 					ops = append(ops, query(len(hs)-1))
 				}
@@ -400,6 +407,7 @@ func runC17(c *Ctx, body json.RawMessage) *Verdict {
 		if _, err := BuildIndex("mem-file", p, rows); err != nil {
 			return v.Harness("build: %v", err)
 		}
+		_ = os.MkdirAll(filepath.Join(filepath.Dir(p), filepath.Base(filepath.Dir(p))), 0o755) // for spelling 3
 		paths = append(paths, p)
 	}
 	dbs := make([]*sql.DB, nh)
@@ -436,7 +444,7 @@ func runC17(c *Ctx, body json.RawMessage) *Verdict {
 						o.p = guard(func() {
 							switch op.Kind {
 							case "open":
-								dsn := "file:" + paths[op.File]
+								dsn := "file:" + spellPath(paths[op.File], op.Sp)
 								if op.Opts != "" {
 									dsn += "?" + op.Opts
 								}
@@ -615,6 +623,21 @@ func runC17(c *Ctx, body json.RawMessage) *Verdict {
 		return v.Violate("goroutine-leak", "bubble ended with blocked goroutines: %s", panicText)
 	}
 	return v
+}
+
+// spellPath returns an equivalent spelling of an absolute path.
+func spellPath(p string, style int) string {
+	dir, name := filepath.Split(p)
+	dir = strings.TrimSuffix(dir, "/")
+	switch style {
+	case 1:
+		return dir + "/./" + name
+	case 2:
+		return dir + "//" + name
+	case 3:
+		return dir + "/" + filepath.Base(dir) + "/../" + name // dir/<dirname>/../name: needs that sub-directory
+	}
+	return p
 }
 
 func hangStacks(s string) string {
